@@ -56,30 +56,48 @@ def main():
         mod.regenerate()
 
     # 1. proofs
-    lean_module = mod.LEAN_MODULE
+    # a property may have several theorem modules (e.g. the theorems about code TRANSLATED from the source live in a module of their
+    # own, so that a source file the translator cannot read breaks those obligations only)
+    lean_modules = mod.LEAN_MODULE if isinstance(mod.LEAN_MODULE, (list, tuple)) else [mod.LEAN_MODULE]
+    lean_module = " ".join(lean_modules)
     obligations = discharged = 0
     ax_details = {}
+    driver_ok = True
     if not a.skip_lean:
-        rc, out, err = C.lake_build([lean_module, "urandom_model"])
+        rc, out, err = C.lake_build(["urandom_model"])
         if rc != 0:
-            first_err = next((l for l in (out + err).split("\n") if l.startswith("error:") and ".lean" in l), "")
-            gen = os.path.join(C.LEAN_DIR, "Urandom", "Generated", "Simd.lean")
-            tr = ""
-            if os.path.exists(gen) and "could not translate" in open(gen).read():
-                tr = "; the SIMD translator could not read the current source: " + open(gen).read().split("could not translate the current source:")[1].split("-/")[0].strip()[:300]
-            problems.append(("proof", "lake build %s failed (%s)%s" % (lean_module, first_err[:300], tr), {"theorem_module": lean_module, "log": (out + err)[-3000:]}))
-        else:
-            obligations, discharged, ax_details, bad = C.axiom_audit(lean_module)
+            # the model driver itself no longer builds (it includes data translated from the source, e.g. the ziggurat tables)
+            driver_ok = False
+            first_err = next((l for l in (out + err).split("\n") if l.startswith("error:")), "")
+            problems.append(("correspondence", "the model driver does not build against the files translated from the current source (%s): the correspondence cannot be run" % first_err[:300],
+                             {"log": (out + err)[-3000:]}))
+        scanned = False
+        for lm in lean_modules:
+            rc, out, err = C.lake_build([lm])
+            if rc != 0:
+                first_err = next((l for l in (out + err).split("\n") if l.startswith("error:") and ".lean" in l), "")
+                tr = ""
+                for genf, what in (("Simd.lean", "SIMD"), ("Scalar.lean", "scalar")):
+                    gen = os.path.join(C.LEAN_DIR, "Urandom", "Generated", genf)
+                    if os.path.exists(gen) and "could not translate" in open(gen).read() and genf[:-5] in (out + err):
+                        tr += "; the %s translator could not read the current source: %s" % (what, open(gen).read().split("could not translate the current source:")[1].split("-/")[0].strip()[:300])
+                problems.append(("proof", "lake build %s failed (%s)%s" % (lm, first_err[:300], tr), {"theorem_module": lm, "log": (out + err)[-3000:]}))
+                continue
+            ob, di, det, bad = C.axiom_audit(lm)
+            obligations += ob
+            discharged += di
+            ax_details.update(det)
             for b in bad:
-                problems.append(("proof", "axiom audit: " + b, {"theorem_module": lean_module}))
-            hits = C.lean_forbidden_scan()
-            for h in hits:
-                problems.append(("proof", "forbidden construct: " + h, {"theorem_module": lean_module}))
+                problems.append(("proof", "axiom audit: " + b, {"theorem_module": lm}))
+            if not scanned:
+                scanned = True
+                for h in C.lean_forbidden_scan():
+                    problems.append(("proof", "forbidden construct: " + h, {"theorem_module": lm}))
             if tier == "thorough" and not os.environ.get("VERIF_NO_LEANCHECKER"):
-                rc, out, err = C.sh(["lake", "env", "leanchecker", lean_module], cwd=C.LEAN_DIR, timeout=7200)
-                notes.append("leanchecker %s rc=%d" % (lean_module, rc))
+                rc, out, err = C.sh(["lake", "env", "leanchecker", lm], cwd=C.LEAN_DIR, timeout=7200)
+                notes.append("leanchecker %s rc=%d" % (lm, rc))
                 if rc != 0:
-                    problems.append(("proof", "leanchecker rejected " + lean_module, {"log": (out + err)[-2000:]}))
+                    problems.append(("proof", "leanchecker rejected " + lm, {"log": (out + err)[-2000:]}))
     else:
         rc, out, err = C.lake_build(["urandom_model"])
         if rc != 0:
@@ -99,12 +117,16 @@ def main():
     if a.replay:
         rp = json.load(open(a.replay))
         fixed_requests = rp.get("requests") or [rp["request"]]
-    for build in builds:
+    for build in (builds if driver_ok else []):
         rc, err, binary = C.harness_build(build)
         if rc != 0:
+            # the current source no longer compiles with the harness (a changed public signature, a removed item, or it does not compile at all):
+            # the correspondence of this build cannot be run, so the property is not shown to hold on it
             print("harness build (%s) failed against %s:\n%s" % (build, C.REPO, err[-3000:]))
-            print("cannot run the correspondence: the repository does not compile with the verification harness")
-            sys.exit(2)
+            first = next((l for l in err.split("\n") if l.startswith("error")), "cargo build failed")
+            problems.append(("correspondence", "the correspondence of build '%s' cannot be run: the verification harness does not compile against the current source (%s)" % (build, first[:300]),
+                             {"build": build, "log": err[-3000:]}))
+            continue
         if a.replay:
             # findings that are not harness requests (a client program, a table entry): replayed by re-running the property's own search
             nonreq = [q for q in fixed_requests if q.startswith(("probe ", "table entry ", "chi-square ", "enum32 "))]
@@ -224,7 +246,7 @@ def main():
         "property_id": prop, "tier": tier, "seed": seed, "level": "proof",
         "coverage": {
             "obligations": obligations, "discharged": discharged,
-            "checker_cmd": "cd /verif/lean && lake build %s && lake env lean .lake/audit/%s_audit.lean  (#print axioms on every theorem; thorough: lake env leanchecker %s)" % (lean_module, prop, lean_module),
+            "checker_cmd": "cd /verif/lean && lake build %s && lake env lean .lake/audit/<module>_audit.lean  (#print axioms on every theorem; thorough: lake env leanchecker <module>)" % lean_module,
             "trusted_base": ["Lean 4.33 kernel", "axioms: propext, Classical.choice, Quot.sound only (audited this run)", "hand-written model tied to /repo by the differential correspondence below", "harness/ (Rust), vlib/ + check.py (Python)"] + list(getattr(mod, "TRUSTED", [])),
             "theorems": {k: ",".join(v) for k, v in ax_details.items()},
             "evaluations": evaluations, "distinct_nontrivial": len(distinct) + extra_distinct,
